@@ -13,82 +13,101 @@ pub fn code_of_debug(d: &str) -> String {
     }
 }
 
+// pattern steps: `k` take min(k, chunk) bytes of the current chunk; `r<k>` copy k bytes through as many
+// chunks as needed (like copy_to_slice / copy_to_bytes); `a<k>` advance(k) directly, across the
+// header/payload boundary (and across payload chunks) if k says so
+#[derive(Clone, Copy)]
+enum Step {
+    Chunk(usize),
+    Read(usize),
+    Adv(usize),
+}
+
+fn parse_pattern(pat: &str) -> Option<Vec<Step>> {
+    if pat == "all" {
+        return Some(vec![]);
+    }
+    let mut v = Vec::new();
+    for t in pat.split(',') {
+        let st = if let Some(n) = t.strip_prefix('r') {
+            n.parse::<usize>().map(Step::Read)
+        } else if let Some(n) = t.strip_prefix('a') {
+            n.parse::<usize>().map(Step::Adv)
+        } else {
+            t.parse::<usize>().map(Step::Chunk)
+        };
+        v.push(st.ok()?);
+    }
+    Some(v)
+}
+
+fn run_pattern<B: Buf>(mut e: h3_datagram::datagram::EncodedDatagram<B>, ks: Vec<Step>) -> String {
+    let rem0 = e.remaining();
+    let mut out = Vec::new();
+    for st in ks {
+        match st {
+            Step::Chunk(k) => {
+                let c = e.chunk();
+                let t = k.min(c.len());
+                out.extend_from_slice(&c[..t]);
+                e.advance(t);
+            }
+            Step::Read(k) => {
+                let mut left = k.min(e.remaining());
+                while left > 0 {
+                    let c = e.chunk();
+                    let t = left.min(c.len());
+                    if t == 0 {
+                        break;
+                    }
+                    out.extend_from_slice(&c[..t]);
+                    e.advance(t);
+                    left -= t;
+                }
+            }
+            Step::Adv(k) => {
+                let t = k.min(e.remaining());
+                e.advance(t);
+            }
+        }
+    }
+    loop {
+        let c = e.chunk();
+        if c.is_empty() {
+            break;
+        }
+        let n = c.len();
+        out.extend_from_slice(c);
+        e.advance(n);
+    }
+    format!("ok {} rem0={}", to_hex(&out), rem0)
+}
+
 pub fn handle(w: &[&str]) -> String {
     match w {
         ["dgram", "enc", sid, ph, pat] => {
             let (Ok(s), Some(p)) = (sid.parse::<u64>(), parse_hex(ph)) else { return "bad-op".into() };
-            // pattern steps: `k` take min(k, chunk) bytes of the current chunk; `r<k>` copy k bytes
-            // through as many chunks as needed (like copy_to_slice); `a<k>` advance(k) directly,
-            // across the header/payload boundary if k says so
-            #[derive(Clone, Copy)]
-            enum Step {
-                Chunk(usize),
-                Read(usize),
-                Adv(usize),
-            }
-            let ks: Vec<Step> = if *pat == "all" {
-                vec![]
-            } else {
-                let mut v = Vec::new();
-                for t in pat.split(',') {
-                    let st = if let Some(n) = t.strip_prefix('r') {
-                        n.parse::<usize>().map(Step::Read)
-                    } else if let Some(n) = t.strip_prefix('a') {
-                        n.parse::<usize>().map(Step::Adv)
-                    } else {
-                        t.parse::<usize>().map(Step::Chunk)
-                    };
-                    match st {
-                        Ok(x) => v.push(x),
-                        Err(_) => return "bad-op".into(),
-                    }
-                }
-                v
-            };
+            let Some(ks) = parse_pattern(pat) else { return "bad-op".into() };
             guarded(|| {
                 let Ok(id) = StreamId::try_from(s) else { return "refused".into() };
-                let d = Datagram::new(id, Bytes::from(p));
-                let mut e = d.encode();
-                let rem0 = e.remaining();
-                let mut out = Vec::new();
-                for st in ks {
-                    match st {
-                        Step::Chunk(k) => {
-                            let c = e.chunk();
-                            let t = k.min(c.len());
-                            out.extend_from_slice(&c[..t]);
-                            e.advance(t);
-                        }
-                        Step::Read(k) => {
-                            let mut left = k.min(e.remaining());
-                            while left > 0 {
-                                let c = e.chunk();
-                                let t = left.min(c.len());
-                                if t == 0 {
-                                    break;
-                                }
-                                out.extend_from_slice(&c[..t]);
-                                e.advance(t);
-                                left -= t;
-                            }
-                        }
-                        Step::Adv(k) => {
-                            let t = k.min(e.remaining());
-                            e.advance(t);
-                        }
-                    }
-                }
-                loop {
-                    let c = e.chunk();
-                    if c.is_empty() {
-                        break;
-                    }
-                    let n = c.len();
-                    out.extend_from_slice(c);
-                    e.advance(n);
-                }
-                format!("ok {} rem0={}", to_hex(&out), rem0)
+                run_pattern(Datagram::new(id, Bytes::from(p)).encode(), ks)
             })
+        }
+        // the payload is a NON-CONTIGUOUS `Buf`: chunks separated by `|`, none empty
+        ["dgram", "encm", sid, chunks, pat] => {
+            let Ok(s) = sid.parse::<u64>() else { return "bad-op".into() };
+            let Some(p) = crate::e_c16::Chunks::parse(&chunks.replace('|', ",")) else { return "bad-op".into() };
+            let Some(ks) = parse_pattern(pat) else { return "bad-op".into() };
+            guarded(|| {
+                let Ok(id) = StreamId::try_from(s) else { return "refused".into() };
+                run_pattern(Datagram::new(id, p).encode(), ks)
+            })
+        }
+        // a connection-level scenario (SimQuic + real server / client, `scen.rs`): `dgram scen <role> <cfg> <op>…`
+        ["dgram", "scen", rest @ ..] if rest.len() >= 2 => {
+            let mut v: Vec<&str> = vec!["conn"];
+            v.extend_from_slice(rest);
+            crate::scen::handle(&v)
         }
         ["dgram", "dec", h] => {
             let Some(bs) = parse_hex(h) else { return "bad-op".into() };
